@@ -303,7 +303,10 @@ def conclude(prop, tier, seed, stats, rule, assumptions, t0, level="exploration"
         head, tail = todo[:lim], todo[lim:]
         try:
             packed = run_shards(_shrink_entry, [(shrink, f.to_json()) for f in head])
-            head = [Failure.from_json(d) for d in packed]
+            shrunk = [Failure.from_json(d) for d in packed]
+            # a reduction that drifted into the bucket of a listed finding would hide a new violation behind it:
+            # such a failure is reported as it was found
+            head = [g if (g.bucket == f.bucket or g.bucket not in known_by_bucket) else f for f, g in zip(head, shrunk)]
         except HarnessError as e:
             print("note: shrinking failed (%s); reporting unshrunk cases" % str(e)[:200], file=sys.stderr)
         todo = head + tail
